@@ -2,7 +2,7 @@
 From Coq Require Import List Arith Bool Lia.
 Import ListNotations.
 From IT Require Import Sdpl.IR Sdpl.Elab Sdpl.Wf Runtime.Actor Runtime.ActorInv Runtime.InvDefs Runtime.InvDefs2 Runtime.InvSeq
-  Runtime.Combined Runtime.InvDrain Gen.Ctor.
+  Runtime.Combined Runtime.InvDrain Runtime.InvStop Runtime.InvSole Runtime.Explore Runtime.InvSoleWitness Gen.Ctor.
 
 Section C04.
 Context {A V : Type} (sem : nat -> A -> list V -> option (A * V)) (sem_slf : nat -> A -> list V -> V) (dv : V).
@@ -45,7 +45,30 @@ Theorem C04_drain : forall (m : model), wf_C04 m = true ->
      applied_ids s' = applied_ids s ++ map msg_id (pending s) /\ drops s' = S (drops s) /\ actor s' = None
      /\ dropped s' = dropped s /\ queue s' = [] /\ busy s' = None).
 Proof. intros m _. exact (drain sem sem_slf dv (elab m)). Qed.
+(* ... and a self-consuming call ends the loop only when the handle being consumed is the only handle in existence: with the
+   sole-owner guard on every self-consuming method ... *)
+Theorem C04_stopped_only_by_sole_owner : forall (m : model), wf_C04 m = true -> r_guard (elab m) = true ->
+  forall a0 progs sched, let s := run (elab m) a0 progs sched in
+  forall s', step (elab m) s Ac = Some s' -> exited s = None -> exited s' = Some Stopped ->
+  senders s = 1 /\ exists t cl, nth_error (clients s) t = Some cl /\ stopping cl = true /\ c_nh cl = 1.
+Proof. intros m _ G. exact (stopped_by_sole_owner sem sem_slf dv (elab m) G). Qed.
+
+(* ... or, without the guard, because the handle type is not Clone: the number of handles never exceeds what was created *)
+Theorem C04_not_clonable_handles_never_grow : forall (m : model), wf_C04 m = true -> r_clonable (elab m) = false ->
+  forall a0 progs sched, senders (run (elab m) a0 progs sched) <= list_sum (map snd progs).
+Proof. intros m _ G. exact (not_clonable_senders sem sem_slf dv (elab m) G). Qed.
 End C04.
+
+(* one of the two premises is needed: a clonable handle with an unguarded self-consuming method lets the loop end while
+   another handle exists (witness: two handles, client 0 consumes) *)
+Theorem C04_stopped_with_other_handle_refuted :
+  r_guard m_noguard = false /\ r_clonable m_noguard = true
+  /\ exited s_two_handles = None /\ senders s_two_handles = 2
+  /\ (exists cl, nth_error (clients s_two_handles) 0 = Some cl /\ stopping cl = true /\ c_nh cl = 1)
+  /\ exists s', Actor.step sem0 sem_slf0 0 m_noguard s_two_handles Ac = Some s'
+       /\ exited s' = Some Stopped /\ senders s' = 2
+       /\ exists cl1, nth_error (clients s') 1 = Some cl1 /\ c_nh cl1 = 1.
+Proof. exact stopped_with_other_handle_refuted. Qed.
 
 (* construction: the user's constructor runs exactly once with the handle constructor's arguments; when a fallible
    constructor fails, its failure value is returned unchanged and no channel / thread was created; on success exactly one
@@ -70,6 +93,9 @@ Proof.
   split; [apply cstmts_eqb_eq; exact W1|apply cstmt_eqb_eq; exact W2].
 Qed.
 
+Print Assumptions C04_stopped_only_by_sole_owner.
+Print Assumptions C04_not_clonable_handles_never_grow.
+Print Assumptions C04_stopped_with_other_handle_refuted.
 Print Assumptions C04_once.
 Print Assumptions C04_exit_cause.
 Print Assumptions C04_drain.
